@@ -58,8 +58,35 @@ pub struct Chain {
     pub next: Option<Box<Chain>>,
 }
 
+#[derive(Serialize)]
+pub struct NewtypeIn(pub i64);
+#[derive(Serialize)]
+pub struct UnitIn;
+#[derive(Serialize)]
+pub struct TupleIn(pub i64, pub String);
+
+/// Further shapes of the serde data model handed to `evaluate(&T)`.
+pub enum TypedIn {
+    I(i64),
+    S(String),
+    ONone(Option<i64>),
+    OSome(Option<i64>),
+    OStruct(Option<DerivedInner>),
+    Tup((i64, bool)),
+    Seq(Vec<i64>),
+    Newtype(NewtypeIn),
+    UnitS(UnitIn),
+    Ch(char),
+    B(bool),
+    EmptyMap(BTreeMap<String, i64>),
+    F(f64),
+    TupS(TupleIn),
+    SeqStruct(Vec<DerivedInner>),
+}
+
 /// A materialised input.
 pub enum Input {
+    Typed(TypedIn),
     Chain(Chain),
     Val(Value),
     Json(serde_json::Value),
@@ -100,6 +127,23 @@ pub fn make_input(spec: &InputSpec) -> Result<Input, String> {
             }
             Input::Val(v)
         }
+        InputSpec::Typed(kind, n) => Input::Typed(match kind % 15 {
+            0 => TypedIn::I(*n),
+            1 => TypedIn::S(format!("s{n}")),
+            2 => TypedIn::ONone(None),
+            3 => TypedIn::OSome(Some(*n)),
+            4 => TypedIn::OStruct(Some(DerivedInner { n: *n, flag: n % 2 == 0 })),
+            5 => TypedIn::Tup((*n, n % 2 == 0)),
+            6 => TypedIn::Seq(vec![*n, n + 1]),
+            7 => TypedIn::Newtype(NewtypeIn(*n)),
+            8 => TypedIn::UnitS(UnitIn),
+            9 => TypedIn::Ch('x'),
+            10 => TypedIn::B(n % 2 == 0),
+            11 => TypedIn::EmptyMap(BTreeMap::new()),
+            12 => TypedIn::F(*n as f64 + 0.5),
+            13 => TypedIn::TupS(TupleIn(*n, "t".into())),
+            _ => TypedIn::SeqStruct(vec![DerivedInner { n: *n, flag: true }, DerivedInner { n: n + 1, flag: false }]),
+        }),
         InputSpec::DeepChain { depth } => {
             let mut c = Chain { v: 0, next: None };
             for i in 0..*depth {
@@ -195,6 +239,22 @@ pub fn task_future(
                 Input::Unit => outcomes_sum(&rs.evaluate(&()).await, &rules),
                 Input::StrKeyMap(m) => outcomes_sum(&rs.evaluate(m).await, &rules),
                 Input::Chain(ch) => outcomes_sum(&rs.evaluate(ch).await, &rules),
+                Input::Typed(t) => match t {
+                    TypedIn::I(x) => outcomes_sum(&rs.evaluate(x).await, &rules),
+                    TypedIn::S(x) => outcomes_sum(&rs.evaluate(x).await, &rules),
+                    TypedIn::ONone(x) | TypedIn::OSome(x) => outcomes_sum(&rs.evaluate(x).await, &rules),
+                    TypedIn::OStruct(x) => outcomes_sum(&rs.evaluate(x).await, &rules),
+                    TypedIn::Tup(x) => outcomes_sum(&rs.evaluate(x).await, &rules),
+                    TypedIn::Seq(x) => outcomes_sum(&rs.evaluate(x).await, &rules),
+                    TypedIn::Newtype(x) => outcomes_sum(&rs.evaluate(x).await, &rules),
+                    TypedIn::UnitS(x) => outcomes_sum(&rs.evaluate(x).await, &rules),
+                    TypedIn::Ch(x) => outcomes_sum(&rs.evaluate(x).await, &rules),
+                    TypedIn::B(x) => outcomes_sum(&rs.evaluate(x).await, &rules),
+                    TypedIn::EmptyMap(x) => outcomes_sum(&rs.evaluate(x).await, &rules),
+                    TypedIn::F(x) => outcomes_sum(&rs.evaluate(x).await, &rules),
+                    TypedIn::TupS(x) => outcomes_sum(&rs.evaluate(x).await, &rules),
+                    TypedIn::SeqStruct(x) => outcomes_sum(&rs.evaluate(x).await, &rules),
+                },
             },
         }
     }
